@@ -7,7 +7,10 @@ from wire import from_wire
 
 PID = "C07"
 STRAY = ["$required", "$delete", "$match", "$replace", "$value", "$invert", "$output", "$merge", "$encode", "$decode",
-         "$repeat", "$parent", "$nosuch", "$mergee", "$deleet", "$replace:", "$merge:", "$x", "$env", "$requiredd", "$Required"]
+         "$repeat", "$parent", "$nosuch", "$mergee", "$deleet", "$replace:", "$merge:", "$x", "$env", "$requiredd", "$Required",
+         # look-alikes whose first letter is a lower-case letter outside ASCII (still directive-shaped: rejected), and
+         # non-letters / upper case of 2-4 bytes (plain data: pass)
+         "$оutput", "$мatch", "$ԁelete", "$ŕequired", "$αbc", "$é", "$ßx", "$日本", "$€5", "$😀", "$Ωmega", "$réquired"]
 W = {"ref": 1, "output": 2, "repeat": 0.5, "encode": 1.5, "interp": 1}
 
 
